@@ -94,7 +94,7 @@ def run(R):
                  sample={"size": repr(v)})
         # frame: nothing else writes options / madctl
         n = 0
-        for rec2 in C.display_methods(F):
+        for rec2 in C.display_methods(F, public_only=True):
             if rec2["name"] == "set_orientation":
                 continue
             n += 1
